@@ -146,3 +146,11 @@ claim("C27", "exploration", "TLC determinism monitor over builds recorded in one
       "each of six programs in each of 5-12 fresh processes (new map-iteration and hash seeds).",
       "The schedule quantifier is sampled, not enumerated; the TLA+ content is a monitor. A nondeterminism that needs an unusual program shape is not reached.",
       "DESIGN.md section 4 C27")
+
+claim("C31", "model_checking", "TLA+ reference semantics of WebAssembly integer operators (WasmNum.tla on BV, evaluated by TLC over the operand space) + execution of every case on the embedded engine (both modes) and on V8",
+      "WasmNum.tla transcribes the integer operators of the WebAssembly specification (add..rotr, the ten comparisons, clz/ctz/popcnt/eqz, wrap/extend, with the two division traps and "
+      "rem_s(x,-1) = 0) on self-validated bit-vectors; TLC evaluates every (operator, operand pair) over 12 (quick) / 27 (thorough) boundary operands per width and emits the specified "
+      "result or trap (7.5k / 38k cases), checking algebraic laws of the reference in the thorough tier. The harness builds one module with a function per operator, assembles it with Wa's "
+      "assembler and calls every case on the embedded wazero in compiler and interpreter mode and on V8 (node). A deviation from the specification that V8 does not share is a violation.",
+      "Trusted: TLC, BV.tla, node/V8 as the independent engine for attribution only. Integer subset; floats, memory and control instructions are not in this check's case space.",
+      "DESIGN.md section 4 (WebAssembly hub)")
